@@ -205,7 +205,7 @@ var StringTokens = map[string]string{
 // EnumTokens: short strings; k9870 / k53003 have the same 32-bit xxh3 (found by a birthday search).
 var EnumTokens = map[string]string{"e1": "e1", "e2": "e2", "e3": "e3", "empty": "", "k9870": "k9870", "k53003": "k53003", "long": rep(300)}
 
-var KeyTokens = map[string]string{"k1": "k1", "k2": "k2", "k3": "k3", "k4": "k4"}
+var KeyTokens = map[string]string{"k0": "", "k1": "k1", "k2": "k2", "k3": "k3", "k4": "k4"}
 
 var f64Tokens = map[string]uint64{
 	"zero": 0, "negzero": 1 << 63, "one": math.Float64bits(1), "nan1": 0x7ff8000000000001, "nan2": 0x7ff0000000000bad,
